@@ -206,6 +206,22 @@ class SArr(SArrBase):
 
     def __iter__(self):
         n = dim_const(self.shape[0]) if self.shape else None
+        if n is None and self.shape and Ctx.cur is not None:
+            # the length may be fixed by the path condition (e.g. inside `if a.shape[0] == 3:`): ask for a value and prove it
+            ctx = Ctx.cur
+            try:
+                s = ctx.solver
+                s.push()
+                s.set("timeout", core.FEAS_TIMEOUT_MS)
+                cand = None
+                if s.check() == z3.sat:
+                    v = s.model().eval(dim_term(self.shape[0]), model_completion=True)
+                    cand = v.as_long() if z3.is_int_value(v) else None
+                s.pop()
+            except Exception:  # noqa: BLE001
+                cand = None
+            if cand is not None and 0 <= cand <= 64 and ctx.probe(SBool(dim_term(self.shape[0]) == cand)):
+                n = cand
         if n is None:
             raise Unsupported("iteration over an array of symbolic length outside a cut loop")
         return iter([self[i] for i in range(n)])
@@ -566,7 +582,13 @@ class SArr(SArrBase):
             ve = lambda *i: vt  # noqa: E731
             vkind = "b" if self.kind == "b" else ("i" if core._is_int(vt) else "f")
         if self.kind == "i" and vkind == "f":
-            raise Unsupported("assignment of real values into an integer array")
+            # numpy casts silently on assignment (same_kind is not enforced for item assignment): the fraction is cut off
+            # towards zero
+            vf = ve
+
+            def ve(*i, _vf=vf):  # noqa: E731
+                x = core.to_real(_vf(*i))
+                return z3.If(x >= 0, z3.ToInt(x), -z3.ToInt(-x))
         old = self._elem
         kind = self.kind
         bits = {"int8": 8, "int16": 16, "int32": 32}.get(self.dtype_name)
